@@ -896,6 +896,16 @@ func runC16(r *Run) {
 			idx := 0
 			eachCall(fn, func(ci CallInfo) {
 				if strings.HasPrefix(ci.Name, "Must") && strings.Contains(ci.Name, "Bech32") {
+					// a constant argument cannot be malformed at run time
+					allConst := len(ci.Instr.Common().Args) > 0
+					for _, a := range ci.Instr.Common().Args {
+						if _, isC := a.(*ssa.Const); !isC {
+							allConst = false
+						}
+					}
+					if allConst {
+						return
+					}
 					nMust++
 					r.Bad("R16", fmt.Sprintf("%s#panicking-decoder-%s", fnID(fn), ci.Name), P.Pos(instrPos(ci.Instr)), "precompile code decodes an address with "+ci.Name+", which panics on input the error-returning decoder would reject (and HexAddressFromBech32String used to route the valid upper-case spelling of a validator address there): the transaction fails as an SDK panic where the native message succeeds or returns an error")
 				}
